@@ -508,6 +508,7 @@ func TestC10(t *testing.T) {
 		defer os.RemoveAll(dir)
 
 		rejecting(c, dir)
+		cancelled(c, dir)
 		crashes(c, dir)
 	})
 }
@@ -775,6 +776,121 @@ func rejecting(c *vk.C, dir string) {
 	wg.Wait()
 
 	c.Sample(map[string]any{"mode": "rejecting-store", "cases": cases.Load(), "marshalers": marshalers})
+}
+
+// cancelled: operations whose context is cancelled at a seeded moment while they run (before the call, while it waits, inside the
+// store's commit, after it). Whatever the call answers is the truth: an error means no effect - in memory now and in the file after
+// a reopen -, success means the write is there; a watcher sees exactly the successful writes.
+func cancelled(c *vk.C, dir string) {
+	bg := context.Background()
+
+	var (
+		wg  sync.WaitGroup
+		sem = make(chan struct{}, 8)
+	)
+
+	n := c.N(12, 200)
+
+	for ci := 0; ci < n; ci++ {
+		wg.Add(1)
+		sem <- struct{}{}
+
+		go func() {
+			defer wg.Done()
+			defer func() { <-sem }()
+
+			marshaler := marshalers[ci%len(marshalers)]
+			noSync := ci%3 == 0 // two thirds with real syncs: the commit takes long enough for the cancellation to land inside it
+			path := filepath.Join(dir, fmt.Sprintf("cancel-%d.db", ci))
+
+			st, closer, err := openState(path, marshaler, nil, noSync)
+			if err != nil {
+				c.Violation("open-failed", err.Error())
+
+				return
+			}
+
+			rng := rand.New(rand.NewPCG(uint64(c.Seed), uint64(40_000+ci)))
+			avg := 200 * time.Microsecond
+			failedCalls, okCalls, history := 0, 0, []string{}
+
+			for k := 0; k < 50; k++ {
+				before, berr := listAll(bg, st)
+				if berr != nil {
+					c.Violation("list-failed", berr.Error())
+
+					break
+				}
+
+				o, r := nextOp(rng, k, k%2, func(id string) (resource.Resource, bool) {
+					cur, err := st.Get(bg, resource.NewMetadata("ns", typeFor(id), id, resource.VersionUndefined))
+
+					return cur, err == nil
+				})
+
+				cctx, cancel := context.WithCancel(bg)
+				delay := time.Duration(rng.Int64N(int64(avg)*3/2 + 1))
+
+				if k%7 == 6 {
+					delay = 0
+					cancel() // cancelled before the call
+				}
+
+				tm := time.AfterFunc(delay, cancel)
+				t0 := time.Now()
+				a := apply(cctx, st, o, r)
+				took := time.Since(t0)
+
+				tm.Stop()
+				cancel()
+
+				after, _ := listAll(bg, st)
+				history = append(history, fmt.Sprintf("%d %s %s cancel-after=%s took=%s -> %q", k, o.Kind, o.ID, delay, took, a.Class))
+
+				if a.Class == "" {
+					okCalls++
+					avg = (avg*3 + took) / 4
+				} else {
+					failedCalls++
+
+					if strings.HasPrefix(a.Class, "other") {
+						c.Count("calls_failed_by_cancellation", 1)
+					}
+
+					if !sameState(before, after, true) {
+						c.Violation("memory-diverged-from-store", map[string]any{"family": "cancelled context", "marshaler": marshaler, "op": o, "answer": a.Class, "before": before, "after": after, "history": history})
+					}
+				}
+			}
+
+			final, _ := listAll(bg, st)
+
+			closer()
+
+			re, closeRe, err := openState(path, marshaler, nil, true)
+			if err != nil {
+				c.Violation("open-failed", err.Error())
+
+				return
+			}
+
+			onDisk, _ := listAll(bg, re)
+
+			closeRe()
+
+			if !sameState(final, onDisk, true) {
+				c.Violation("state-after-reopen-differs-from-answers", map[string]any{"family": "cancelled context", "marshaler": marshaler, "no_sync": noSync, "memory_at_close": final, "file": onDisk, "history": history})
+			}
+
+			c.Count("cancelled_context_ops", failedCalls+okCalls)
+			c.Count("fields_compared", len(onDisk)*12)
+			c.Case(vk.Hash("cancel", marshaler, ci), failedCalls > 0 && okCalls > 0)
+
+			_ = os.Remove(path)
+		}()
+	}
+
+	wg.Wait()
 }
 
 type childRun struct {
